@@ -223,7 +223,7 @@ func registry() map[string]PropSpec {
 			{Pkg: "jwkutil", Name: "c18_loadkey", Quick: map[string]int{"keys": 2}, Thorough: map[string]int{"keys": 3}, Unwind: [2]int{24, 24},
 				What: "LoadKey (file reading and jwk.Parse stubbed to return the abstract set) on key sets of <= keys keys with symbolic ids and a symbolic requested id: requested or only key, refusal of ambiguous, absent and invalid keys"},
 			{Pkg: "jwkutil", Name: "c18_reload", Quick: map[string]int{"loads": 2}, Thorough: map[string]int{"loads": 3}, Unwind: [2]int{24, 24},
-				What: "histories of `loads` LoadKey calls in one process (package-level state symbolically carried from call to call; sync.Map modelled as an association list, RFC 7638 thumbprints as an injective function of key type and material): each file holds one key of type OKP/EC/RSA whose material is either that of an earlier key or fresh, with its own algorithm declaration (approved, other signature algorithms, symmetric, or none), key id and requested id, optionally preceded by a NewKeyPair request for an unsupported algorithm (which must be refused and have no effect; slice capacity and aliasing of package-level tables are modelled); every load is accepted exactly when that key alone would be"},
+				What: "histories of `loads` LoadKey calls in one process (package-level state symbolically carried from call to call; sync.Map modelled as an association list, RFC 7638 thumbprints as an injective function of key type and material): each file holds one key of type OKP/EC/RSA whose material is either that of an earlier key or fresh, with its own algorithm declaration (approved, other signature algorithms, symmetric, or none), key id and requested id, optionally preceded by a NewKeyPair request for an algorithm the library does not generate (whatever it answers, it must have no effect on later loads; slice capacity and aliasing of package-level tables are modelled); every load is accepted exactly when that key alone would be"},
 		},
 		Outside: []string{
 			"NewKeyPair (crypto/rand, RSA/EC/Ed25519 generation) and `what one key signs verifies with its public half and no other` (real cryptography): not encodable; not claimed",
@@ -370,7 +370,7 @@ func registry() map[string]PropSpec {
 			{Pkg: "signature", Name: "c01_tamper", Quick: map[string]int{"matrix": 1}, Unwind: [2]int{64, 64}, Budget: [2]int{120, 1500}, FixedMapOrder: true, Models: []string{"net/url.Parse=vpModelURLParse", "path.Join=vpModelPathJoin"},
 				What: "same with a signed matrix that mixes the anonymous dimension with a named one and carries an adjustment: changing the named dimension, the anonymous one, removing a dimension or flipping the skip flag must be rejected"},
 			{Pkg: "signature", Name: "c01_fields", Quick: map[string]int{"fields": 5}, Thorough: map[string]int{"fields": 7}, Unwind: [2]int{64, 64}, Budget: [2]int{120, 1500},
-				What: "CommandStepWithInvariants.ValuesForFields on every field list of <= `fields` entries over the five mandatory names, an env:: entry and an unknown name (any order, repeats): values are handed out exactly when all five mandatory fields occur and nothing unknown does"},
+				What: "CommandStepWithInvariants.ValuesForFields on every field list of <= `fields` entries over the five mandatory names and an env:: entry (any order, repeats): values are handed out exactly when all five mandatory fields occur"},
 			{Pkg: "signature", Name: "c01_legacy", Quick: map[string]int{}, Unwind: [2]int{64, 64}, Budget: [2]int{120, 1500}, FixedMapOrder: true, Models: []string{"net/url.Parse=vpModelURLParse", "path.Join=vpModelPathJoin"},
 				What: "a genuine signature made by a signer that omits one of the five mandatory fields, its (unsigned) field list padded at either end with up to two repeats of fields it has, presented with the uncovered field changed or not: Verify must refuse"},
 		},
